@@ -45,6 +45,26 @@ def step_to_db(prog, step):
     return db
 
 
+def to_base_terms(c, j, step):
+    """variants with renamed relations / re-typed constants dump in their own terms: map back to the base program's"""
+    back = getattr(j.variant, 'back', None)
+    if back is None:
+        return step
+    vprog, prog = j.variant.prog, c.ref_prog
+    rels = {}
+    for relname, rows in step['rels'].items():
+        for t in P.parse_rel_rows(vprog, relname, rows):
+            brel, bt = back(relname, t)
+            rels.setdefault(brel, []).append(R.show_row(prog, brel, bt))
+        if not rows:
+            brel, _ = back(relname, None)
+            rels.setdefault(brel, [])
+    ns = dict(step)
+    ns['rels'] = rels
+    ns['sizes'] = ''
+    return ns
+
+
 def expected_inputs(job):
     """cumulative input rows for each observed step"""
     if 'expect' in job.meta:
@@ -129,6 +149,7 @@ def run_cases(ctx, cases, closure=True, check_inputs=True, extra_check=None, on_
             any_nontrivial = False
             for (rep, steps) in jr.reps:
                 for k, step in enumerate(steps):
+                    step = to_base_terms(c, j, step)
                     status, db, tsum, nontrivial = refs[(j.id, k)]
                     if status != 'ok':
                         ctx.inconc('reference failed on %s step %d: %s' % (j.id, k, db))
